@@ -19,7 +19,7 @@ OUTSIDE = ['coordinates beyond [-10, 10]', 'more than 3 boxes (the loop body is 
 ASSUMPTIONS = ['oracle: Fourier-Motzkin elimination of t from {lo <= p + t d <= hi, 0 <= t <= 1} (exact, closed box)',
                'rtree index replaced by an in-memory double (not used by obstruction)']
 EXPLORER_DEFAULTS = {'quick': dict(prove_timeout_ms=30000, time_budget_s=600, max_paths=400),
-                     'thorough': dict(prove_timeout_ms=120000, time_budget_s=3000, max_paths=4000)}
+                     'thorough': dict(prove_timeout_ms=120000, time_budget_s=1200, max_paths=4000)}
 
 
 def seg_box_oracle(p, q, lo, hi):
